@@ -1,5 +1,6 @@
 """C05 - condition events fire exactly when their predicate first holds, with exact value."""
-from harness import kprops, koracle
+from harness import kprops, koracle, kbridge
+from harness.kbridge import EXTRA_MODULES, TRUSTED_EXTRA, prepare
 ASSUMPTIONS = ['condition trees of depth <= 3 over timeouts, shared events and processes; one environment (the mixed-environment refusal is checked by a direct call)']
 SPEC = [(8, 'cond'), (3, 'chain'), (1, 'outcome'), (1, 'plan:cond'), (1, 'plan:chain')]
 def run(ctx):
@@ -35,4 +36,5 @@ def run(ctx):
         except ValueError:
             pass
     res['coverage']['environment_mix_shapes_checked'] = nshape + 2
+    res['coverage'].update(kbridge.coverage('C05'))
     return res
